@@ -184,6 +184,10 @@ def rebalance_seq(c):
         if c['kind'] == 'long_only':
             return DollarWeightedCashBufferedOrderSizer(broker, 'p', dh, cash_buffer_percentage=c['param'])
         return LongShortLeveragedOrderSizer(broker, 'p', dh, gross_leverage=c['param'])
+    def mk_seq_opt():
+        if c.get('opt_equal') is not None:
+            return EqualWeightPortfolioOptimiser(scale=c['opt_equal'])
+        return FixedWeightPortfolioOptimiser()
     persistent = None
     if c.get('persistent') and c['rounds']:
         # one universe object, one sizer and one construction model serve every rebalance, as in a trading system
@@ -193,7 +197,7 @@ def rebalance_seq(c):
             alpha0 = SingleSignalAlphaModel(uni0, signal=c['single_signal'])
         else:
             alpha0 = FixedSignalsAlphaModel({})
-        persistent = (uni0, sizer0, PortfolioConstructionModel(broker, 'p', uni0, sizer0, FixedWeightPortfolioOptimiser(),
+        persistent = (uni0, sizer0, PortfolioConstructionModel(broker, 'p', uni0, sizer0, mk_seq_opt(),
                                                                 alpha_model=alpha0))
     for r in c['rounds']:
         t = ts(r['t_close'])
@@ -203,13 +207,13 @@ def rebalance_seq(c):
         if persistent is not None:
             _, sizer, pcm = persistent
             if c.get('single_signal') is None:
-                pcm.alpha_model = None if r.get('no_alpha') else FixedSignalsAlphaModel(dict((a, w) for a, w in r['alpha']))
+                pcm.alpha_model = None if r.get('no_alpha') else FixedSignalsAlphaModel(dict((a, w) for a, w in r.get('alpha_in', r['alpha'])))
         else:
             sizer = mk_seq_sizer()
             pcm = PortfolioConstructionModel(broker, 'p', StaticUniverse(list(r['universe'])), sizer,
-                                             FixedWeightPortfolioOptimiser(),
+                                             mk_seq_opt(),
                                              alpha_model=(None if r.get('no_alpha') else
-                                                          FixedSignalsAlphaModel(dict((a, w) for a, w in r['alpha']))))
+                                                          FixedSignalsAlphaModel(dict((a, w) for a, w in r.get('alpha_in', r['alpha'])))))
         # a risk model that returns the weights it is given must change nothing
         pcm.risk_model = (lambda dt_, w_: w_) if r.get('risk_identity') else None
         stats = {'target_allocations': []}
